@@ -36,7 +36,18 @@ other_line = st.sampled_from(["", " ", "; only a comment", "@ExcludeRegion off",
 structured_line = st.one_of(
     st.tuples(lead, lineno, code, params, checksum, trail, comment, eol).map("".join),
     st.tuples(lead, other_line, trail, comment, eol).map("".join))
-structured = st.lists(structured_line, min_size=1, max_size=8).map("".join)
+@st.composite
+def twin_lines(draw):
+    """Two consecutive lines with the same code and parameters that differ only in sub-code, indentation or line number."""
+    c = draw(st.sampled_from(["G38", "G1", "M117", "G92", "M204", "T0"]))
+    prm = draw(st.sampled_from([" Z-5", " X1 Y2", "", " S500", " Hello"]))
+    def one():
+        sub = draw(st.sampled_from(["", ".2", ".3", ".0"])) if c[0] in "GM" else ""
+        return draw(lead) + draw(st.sampled_from(["", "", "N4 ", "N5 "])) + c + sub + prm + draw(checksum) + draw(eol)
+    return one() + one()
+
+
+structured = st.lists(st.one_of(structured_line, structured_line, structured_line, twin_lines()), min_size=1, max_size=8).map("".join)
 
 
 def strategy(tier):
